@@ -400,6 +400,10 @@ def c18_twin(a, col, budget=None):
         prog += 1
         gen = Gen(rng, "generic", a.tier, {"approx_ops": False, "weights": w, "fock_types": ["PhaseShift", "Identity", "Creation"]})
         mode, decl, declB = collide_pair(gen, rng)
+        if mode == "labels":
+            # Fock operations choose dimensions from the occupied levels, i.e. from the label values: with
+            # different labels the twins would legitimately get different dimensions
+            gen.opts["no_fock_ops"] = True
         contraction = bool(rng.random() < 0.5)
         srng = np.random.default_rng(int(rng.integers(0, 2**31)))
         # lead = value-distinct world: the program is generated against it
@@ -449,7 +453,7 @@ def c18_twin(a, col, budget=None):
             if sa["blocks"] is not None and sb["blocks"] is not None and sa["blocks"] != sb["blocks"]:
                 col.add([V("C18", False, "partition-differs", f"step {i} {st['k']}: blocks {sa['blocks']} vs {sb['blocks']}", cell, **sig)], replay)
                 break
-            if st["k"] == "trace_out" and not sa["raised"]:
+            if st["k"] == "trace_out" and not sa["raised"] and mode == "arrays":
                 sha, shb = getattr(sa.get("ret"), "shape", None), getattr(sb.get("ret"), "shape", None)
                 if sha != shb:
                     col.add([V("C18", False, "returned-shape-differs", f"step {i} trace_out: {sha} vs {shb}", cell, **sig)], replay)
